@@ -50,6 +50,8 @@ import shutil
 import sys
 import tempfile
 import threading as _real_threading
+import time as _real_time
+from pathlib import Path
 from typing import Any, Dict, List, Optional, Sequence, Tuple
 
 from . import common as C
@@ -701,3 +703,60 @@ def fmt_block(cid: str, o: Dict[str, Any]) -> List[str]:
     lines.append("RD " + " ".join(rd))
     lines.append("END")
     return lines
+
+
+# ------------------------------------------------------------------------------------------------
+# several recordings with one DataCollection object (START / STOP / START …, as the data logger does)
+# ------------------------------------------------------------------------------------------------
+
+def multi_session_check(fmt: str = "raw", flush_every_update: bool = False, sessions=(5, 6, 4)) -> Dict[str, Any]:
+    """Real DataCollection, real writer thread, real clock; one data set selecting every type; three recordings in a row
+    with the same objects (only the file name changes, as the metadata would).  Returns the per-session sequences of
+    message serials that were sent and that the files contain."""
+    E = env()
+    dcm = E["dcm"]
+    base = tempfile.mkdtemp(prefix="pyrtma_verif_dlmulti_")
+    old_period = dcm.DataCollection.WRITE_PERIOD
+    out: Dict[str, Any] = {"fmt": fmt, "flush_every_update": flush_every_update, "sessions": [], "exc": None}
+    dc = None
+    try:
+        if flush_every_update:
+            dcm.DataCollection.WRITE_PERIOD = 0.0
+        md = E["LoggingMetadata"]()
+        dc = dcm.DataCollection("c", base, "run", md)
+        ds = E["DataSet"]("c", "ds0", "ds0", "f0", E["get_formatter"](fmt), 0, [2147483647], md)
+        dc.add_data_set(ds)
+        serial = 0
+        for si, n in enumerate(sessions):
+            ds.file_name_fmt = f"rec{si}"
+            dc.start()
+            sent, keys = [], {}
+            for k in range(n):
+                serial += 1
+                m = mk_msg(k % 3, serial)
+                keys[key_of(m)] = serial
+                sent.append(serial)
+                dc.update(m)
+                if flush_every_update:
+                    _real_time.sleep(0.02)
+            dc.stop()
+            got: List[Any] = []
+            for fn in sorted(os.listdir(os.path.join(base, "run")) if os.path.isdir(os.path.join(base, "run")) else []):
+                pass
+            # the data set's file(s) of this recording
+            paths = sorted(str(p) for p in Path(base).rglob(f"rec{si}*"))
+            for pth in paths:
+                for kk in decode_file(fmt, pth):
+                    got.append(keys.get(kk, ("foreign", kk[0][:8].hex() if kk[0] else None)))
+            out["sessions"].append({"sent": sent, "read": got, "files": [os.path.basename(p) for p in paths]})
+    except Exception as e:  # noqa: BLE001
+        out["exc"] = f"{type(e).__name__}: {e}"[:300]
+    finally:
+        dcm.DataCollection.WRITE_PERIOD = old_period
+        try:
+            if dc is not None:
+                dc.close()
+        except Exception:  # noqa: BLE001
+            pass
+        shutil.rmtree(base, ignore_errors=True)
+    return out
